@@ -149,12 +149,18 @@ class Project:
         consts = self._consts()
         for _, lhs, op, rhs in walk_assignments(stmts):
             if lhs[0] == "index" and lhs[1] == ("id", "ydot"):
-                if op != "=":
-                    raise CParseError("compound assignment to ydot")
                 slot = const_int(lhs[2], consts)
                 self._bounds("ydot", slot, "Fex")
                 p = ast_to_poly(rhs, consts, self._ALIAS)
                 self._check_atoms(p, f"Fex ydot[{slot}]")
+                if op in ("+=", "-="):
+                    # a long sum continued with compound assignments: valid C, accumulate in statement order
+                    if slot not in out:
+                        raise LayoutViolation(f"ydot[{slot}] {op} before its first assignment")
+                    out[slot] = out[slot] + p if op == "+=" else out[slot] - p
+                    continue
+                if op != "=":
+                    raise CParseError(f"unsupported assignment operator {op} on ydot")
                 if slot in out:
                     raise LayoutViolation(f"ydot[{slot}] assigned twice")
                 out[slot] = p
